@@ -289,7 +289,7 @@ class LimitsFamily(SubsFamily):
 
     def gen(self, rng, tier, prop):
         k = swarm_knobs(rng, faults=False)
-        k['file_size'] = rng.choice([None, 4099, 16000, 65536])    # header file boundaries inside a 2 000-block chain
+        k['file_size'] = rng.choice([None, 4000, 16000, 65600])    # header file boundaries inside a 2 000-block chain
         k.update(stall_p=0.0, line_p=0.0, chunk_size=25_000_000, activation=5, preempt=rng.random() < 0.5,
                  daemon_latency=(0.0, 0.001), prefetch=rng.choice([10, 100]), reorg_limit=10, cache_mb=1200)
         if rng.random() < 0.45:
